@@ -179,7 +179,7 @@ def work(item, opts):
 def check(prop, tier, seed):
     rep = Report(prop, tier, seed)
     names = universe.opt_names()
-    items = [{"opt": n, "seed": seed, "n_dicts": 14 if tier == "quick" else 150, "n_runs": 2 if tier == "quick" else 16} for n in names]
+    items = [{"opt": n, "seed": seed, "n_dicts": 14 if tier == "quick" else 400, "n_runs": 2 if tier == "quick" else 40} for n in names]
     res = runner.run_parallel("pvmon.props.c18", "work", items, {}, batch=2 if tier == "quick" else 1, per_item_s=300)
     seen = set()
     tot = {"dicts": 0, "accepted": 0, "rejected": 0, "runs": 0}
